@@ -166,7 +166,7 @@ func (c *config) WriteTCPServicesMaps() error {
 // config file. This func doesn't change model state, except the
 // link to the frontend maps.
 func (c *config) WriteFrontendMaps() error {
-	if c.frontend.Maps != nil && !c.hosts.Changed() {
+	if c.frontend.Maps != nil && !c.hosts.Changed() && !c.rootRedirectBackendChanged() {
 		// TODO Maps!=nil just to preserve the current behavior. Check if this can be removed.
 		// hosts are clean, maps are updated
 		return nil
@@ -345,6 +345,27 @@ func (c *config) WriteFrontendMaps() error {
 	}
 	c.frontend.Maps = fmaps
 	return nil
+}
+
+// rootRedirectBackendChanged returns true if a changed backend is the target
+// of the root path of a host that has root redirect. The ssl redirect of such
+// a path is read from the backend when the frontend maps are built, so they
+// need to be rebuilt even if all the hosts are clean.
+func (c *config) rootRedirectBackendChanged() bool {
+	if !c.backends.Changed() {
+		return false
+	}
+	backendsAdd := c.backends.ItemsAdd()
+	for _, host := range c.hosts.Items() {
+		if host.RootRedirect != "" {
+			for _, path := range host.FindPath("/") {
+				if _, changed := backendsAdd[path.Backend.ID]; changed {
+					return true
+				}
+			}
+		}
+	}
+	return false
 }
 
 // WriteBackendMaps reads the model and writes haproxy's maps
